@@ -154,7 +154,7 @@ func evalRealX(c realCase) (vs []viol, engineErr string, outcome string) {
 	guard := time.NewTimer(hangGuard)
 	defer guard.Stop()
 	switch c.Cancel {
-	case "ctx-cancel", "method-cancel":
+	case "ctx-cancel", "method-cancel", "method-stop":
 		// event-defined instant: the logger received the child's announcement; the child now sleeps for 100 s
 		select {
 		case <-ready:
@@ -163,10 +163,20 @@ func evalRealX(c realCase) (vs []viol, engineErr string, outcome string) {
 		case <-guard.C:
 			return nil, "hang guard expired while waiting for the child's announcement", ""
 		}
-		if c.Cancel == "ctx-cancel" {
+		switch c.Cancel {
+		case "ctx-cancel":
 			cancelParent()
-		} else {
+		case "method-cancel":
 			proc.Cancel()
+		default: // method-stop: Stop() arrives while Execute() is running
+			stopped := make(chan struct{})
+			go func() { defer close(stopped); _ = proc.Stop() }()
+			defer func() {
+				select {
+				case <-stopped:
+				case <-time.After(hangGuard):
+				}
+			}()
 		}
 	}
 	select {
@@ -174,6 +184,12 @@ func evalRealX(c realCase) (vs []viol, engineErr string, outcome string) {
 	case <-guard.C:
 		cancelParent()
 		return nil, fmt.Sprintf("hang guard (%v) expired: %s %s did not return%s", hangGuard, c.API, c.Family, stacksOnce()), ""
+	}
+	if c.Cancel != "" {
+		// whatever the interruption set in motion asynchronously (the monitoring goroutine, a concurrent Stop) may
+		// still log after Execute returned: give it time to land before the messages are read. A wait that is too
+		// short can only hide a late message, never invent one.
+		time.Sleep(400 * time.Millisecond)
 	}
 	outcome = errClass(runErr)
 	events := rec.snapshot()
@@ -461,7 +477,7 @@ func realCases(thorough bool) ([]realCase, realBound) {
 	}
 
 	// cancel family: the child announces itself, then sleeps for 100 s
-	b.CancelKinds = []string{"ctx-cancel", "ctx-deadline", "method-cancel"}
+	b.CancelKinds = []string{"ctx-cancel", "ctx-deadline", "method-cancel", "method-stop"}
 	b.CancelRepeats = 3
 	if thorough {
 		b.CancelRepeats = 10
@@ -474,7 +490,8 @@ func realCases(thorough bool) ([]realCase, realBound) {
 			realCase{Family: "cancel", API: "new-execute", Exit: -1, Cancel: "ctx-cancel", Ops: ops},
 			realCase{Family: "cancel", API: "execute", Exit: -1, Cancel: "ctx-deadline", Ops: ops},
 			realCase{Family: "cancel", API: "output", Exit: -1, Cancel: "ctx-deadline", Ops: ops},
-			realCase{Family: "cancel", API: "new-execute", Exit: -1, Cancel: "method-cancel", Ops: ops})
+			realCase{Family: "cancel", API: "new-execute", Exit: -1, Cancel: "method-cancel", Ops: ops},
+			realCase{Family: "cancel", API: "new-execute", Exit: -1, Cancel: "method-stop", Ops: ops})
 	}
 	return cases, b
 }
